@@ -24,6 +24,8 @@ pub enum SeedKind {
     BigPanickingDrop,
     /// 4 KiB seed without drop glue
     BigNoDrop,
+    /// zero-sized seed with a destructor
+    ZstDrop,
 }
 
 impl SeedKind {
@@ -31,7 +33,7 @@ impl SeedKind {
         matches!(self, SeedKind::PanickingDrop | SeedKind::BigPanickingDrop)
     }
     fn has_drop(self) -> bool {
-        !matches!(self, SeedKind::NoDrop | SeedKind::BigNoDrop)
+        !matches!(self, SeedKind::NoDrop | SeedKind::BigNoDrop | SeedKind::ZstDrop)
     }
 }
 
@@ -40,6 +42,8 @@ pub enum Action {
     Fail { mutate: bool },
     Panic { mutate: bool },
     Succeed { mutate: bool, work: u8 },
+    /// a succeeding initialiser run from a destructor while the calling thread unwinds from an unrelated panic
+    SucceedUnwinding { mutate: bool },
 }
 
 #[derive(Debug, Clone, Serialize, Deserialize)]
@@ -54,6 +58,10 @@ pub struct Case {
 
 trait SeedT: Send + 'static {
     fn new() -> Self;
+    /// false for a seed that cannot carry the mutation log (zero-sized)
+    fn carries_log() -> bool {
+        true
+    }
     fn log(&self) -> Vec<u8>;
     fn push(&mut self, b: u8);
     fn token(&self) -> Option<u64>;
@@ -193,6 +201,33 @@ impl SeedT for SeedNB {
     }
 }
 
+/// zero-sized seed with a destructor: live instances are counted
+static ZSEED_LIVE: std::sync::atomic::AtomicI64 = std::sync::atomic::AtomicI64::new(0);
+static ZSEED_DROPS: AtomicUsize = AtomicUsize::new(0);
+struct SeedZ;
+impl SeedT for SeedZ {
+    fn new() -> Self {
+        ZSEED_LIVE.fetch_add(1, SeqCst);
+        SeedZ
+    }
+    fn carries_log() -> bool {
+        false
+    }
+    fn log(&self) -> Vec<u8> {
+        Vec::new()
+    }
+    fn push(&mut self, _b: u8) {}
+    fn token(&self) -> Option<u64> {
+        None
+    }
+}
+impl Drop for SeedZ {
+    fn drop(&mut self) {
+        ZSEED_LIVE.fetch_sub(1, SeqCst);
+        ZSEED_DROPS.fetch_add(1, SeqCst);
+    }
+}
+
 struct Val {
     tok: Tracked,
     v: u32,
@@ -225,6 +260,8 @@ struct ThreadReport {
 
 fn run_generic<S: SeedT>(c: &Case, out: &mut Outcome) {
     ledger::reset();
+    ZSEED_LIVE.store(0, SeqCst);
+    ZSEED_DROPS.store(0, SeqCst);
     let sh = Shared::default();
     let cell: OnceInitCell<S, Val> = OnceInitCell::new(S::new());
     let nthreads = c.threads.len();
@@ -234,7 +271,7 @@ fn run_generic<S: SeedT>(c: &Case, out: &mut Outcome) {
     let max_attempts = c.threads.iter().map(|t| t.len()).max().unwrap_or(0);
 
     let attempt = |t: usize, a: Action, rep: &mut ThreadReport| {
-        let r = catch_unwind(AssertUnwindSafe(|| {
+        let call = || {
             cell.get_or_try_init(|seed: &mut S| {
                 if sh.inside.fetch_add(1, SeqCst) != 0 {
                     sh.overlap.store(true, SeqCst);
@@ -252,7 +289,7 @@ fn run_generic<S: SeedT>(c: &Case, out: &mut Outcome) {
                         *sh.seed_mismatch.lock().unwrap() = Some("an initialiser was handed a seed that had already been dropped".into());
                     }
                 }
-                {
+                if S::carries_log() {
                     let exp = sh.expected_log.lock().unwrap();
                     let got = seed.log();
                     if got != *exp {
@@ -263,7 +300,7 @@ fn run_generic<S: SeedT>(c: &Case, out: &mut Outcome) {
                     }
                 }
                 let (mutate, work) = match a {
-                    Action::Fail { mutate } | Action::Panic { mutate } => (mutate, 0),
+                    Action::Fail { mutate } | Action::Panic { mutate } | Action::SucceedUnwinding { mutate } => (mutate, 0),
                     Action::Succeed { mutate, work } => (mutate, work),
                 };
                 if mutate {
@@ -289,7 +326,7 @@ fn run_generic<S: SeedT>(c: &Case, out: &mut Outcome) {
                 match a {
                     Action::Fail { .. } => Err(()),
                     Action::Panic { .. } => panic!("initialiser panics"),
-                    Action::Succeed { .. } => {
+                    Action::Succeed { .. } | Action::SucceedUnwinding { .. } => {
                         let v = (t as u32) * 1000 + sh.successes.load(SeqCst) as u32 + 1;
                         sh.successes.fetch_add(1, SeqCst);
                         sh.success_value.store(v as usize, SeqCst);
@@ -298,7 +335,28 @@ fn run_generic<S: SeedT>(c: &Case, out: &mut Outcome) {
                 }
             })
             .map(|r| (r as *const Val as usize, r.v, r.tok.token))
-        }));
+        };
+        let r = if matches!(a, Action::SucceedUnwinding { .. }) {
+            // the call is made from the destructor of a guard while an unrelated panic unwinds this thread
+            let mut slot = None;
+            let outer = catch_unwind(AssertUnwindSafe(|| {
+                struct OnUnwind<F: FnMut()>(F);
+                impl<F: FnMut()> Drop for OnUnwind<F> {
+                    fn drop(&mut self) {
+                        (self.0)()
+                    }
+                }
+                let _g = OnUnwind(|| slot = Some(call()));
+                panic!("unrelated panic");
+            }));
+            debug_assert!(outer.is_err());
+            match slot {
+                Some(r) => Ok(r),
+                None => Err(Box::new("the guard did not run") as Box<dyn std::any::Any + Send>),
+            }
+        } else {
+            catch_unwind(AssertUnwindSafe(call))
+        };
         match r {
             Ok(Ok((addr, v, tok))) => {
                 ledger::note_use(tok);
@@ -432,6 +490,15 @@ fn run_generic<S: SeedT>(c: &Case, out: &mut Outcome) {
             }
         }
     }
+    if c.seed == SeedKind::ZstDrop {
+        let live = ZSEED_LIVE.load(SeqCst);
+        if successes == 0 && live != 1 {
+            out.fail("seed-dropped-early", format!("{live} zero-sized seeds are alive although the cell was never initialised (expected 1)"));
+        }
+        if successes >= 1 && live != 0 {
+            out.fail("seed-not-dropped", format!("{live} zero-sized seed(s) still alive after a successful initialisation: its destructor must run when the value replaces it"));
+        }
+    }
     if let Some((_, _, vt)) = get_now {
         if !ledger::is_alive(vt) {
             out.fail("value-dropped-early", "the value of an initialised cell has been dropped");
@@ -447,6 +514,9 @@ fn run_generic<S: SeedT>(c: &Case, out: &mut Outcome) {
     }
     if ledger::alive_count() != 0 {
         out.fail("leak", format!("{} tracked seed/value(s) still alive after the cell was dropped", ledger::alive_count()));
+    }
+    if c.seed == SeedKind::ZstDrop && (ZSEED_LIVE.load(SeqCst) != 0 || ZSEED_DROPS.load(SeqCst) != 1) {
+        out.fail("leak", format!("after the cell was dropped the zero-sized seed's destructor has run {} time(s) (expected exactly once)", ZSEED_DROPS.load(SeqCst)));
     }
     if ledger::double_drops() != 0 {
         out.fail("double-drop", format!("{} tracked seed/value(s) were dropped twice", ledger::double_drops()));
@@ -468,6 +538,7 @@ fn action_strategy() -> impl Strategy<Value = Action> {
         3 => any::<bool>().prop_map(|mutate| Action::Fail { mutate }),
         2 => any::<bool>().prop_map(|mutate| Action::Panic { mutate }),
         3 => (any::<bool>(), 0u8..60).prop_map(|(mutate, work)| Action::Succeed { mutate, work }),
+        1 => any::<bool>().prop_map(|mutate| Action::SucceedUnwinding { mutate }),
     ]
 }
 
@@ -477,7 +548,7 @@ impl Prop for C17 {
     }
 
     fn rule(&self) -> String {
-        "cases = (seed kind: with Drop / without drop glue / with a panicking destructor, each also as a large seed (520 B, 4 KiB, 1 KiB) carrying a checked padding; 1..8 threads each with a script of failing, panicking or succeeding \
+        "cases = (seed kind: with Drop / without drop glue / with a panicking destructor, each also as a large seed (520 B, 4 KiB, 1 KiB) carrying a checked padding, and a zero-sized seed with a destructor; initialisers may also run from the destructor of a guard while their thread unwinds from an unrelated panic; 1..8 threads each with a script of failing, panicking or succeeding \
          initialisers that may mutate the seed first; optional spin rendezvous before every attempt; optional getter thread calling get() while the first initialiser is parked inside the cell). \
          Oracle: at most one initialiser inside the cell at a time, exactly one success, one reference/value for all callers, the seed is found exactly as the previous initialisers left it, \
          get() is None until a success and never blocks (a blocked getter deadlocks the case -> blocked-state detector), drop ledger: seed alive until success, dropped once after, value alive until the cell is dropped, nothing left, nothing dropped twice. \
@@ -499,7 +570,7 @@ impl Prop for C17 {
     }
 
     fn strategy(&self, _tier: Tier) -> BoxedStrategy<Value> {
-        let seed = prop_oneof![3 => Just(SeedKind::Drop), 3 => Just(SeedKind::NoDrop), 1 => Just(SeedKind::PanickingDrop), 1 => Just(SeedKind::BigDrop), 1 => Just(SeedKind::BigPanickingDrop), 1 => Just(SeedKind::BigNoDrop)];
+        let seed = prop_oneof![3 => Just(SeedKind::Drop), 3 => Just(SeedKind::NoDrop), 1 => Just(SeedKind::PanickingDrop), 1 => Just(SeedKind::BigDrop), 1 => Just(SeedKind::BigPanickingDrop), 1 => Just(SeedKind::BigNoDrop), 1 => Just(SeedKind::ZstDrop)];
         let threads = prop_oneof![
             3 => prop::collection::vec(prop::collection::vec(action_strategy(), 1..8), 1..2),
             4 => prop::collection::vec(prop::collection::vec(action_strategy(), 1..5), 2..8),
@@ -519,6 +590,7 @@ impl Prop for C17 {
             SeedKind::BigDrop => run_generic::<SeedDB>(&c, &mut out),
             SeedKind::BigPanickingDrop => run_generic::<SeedPB>(&c, &mut out),
             SeedKind::BigNoDrop => run_generic::<SeedNB>(&c, &mut out),
+            SeedKind::ZstDrop => run_generic::<SeedZ>(&c, &mut out),
         }
         let multi = c.threads.len() >= 2;
         let mutated_failure = c.threads.iter().any(|t| {
@@ -534,11 +606,14 @@ impl Prop for C17 {
         if c.getter {
             out.label("getter");
         }
+        if c.threads.iter().flatten().any(|a| matches!(a, Action::SucceedUnwinding { .. })) {
+            out.label("init-while-unwinding");
+        }
         out.label(format!("seed:{:?}", c.seed));
         out
     }
 
     fn required_labels(&self) -> Vec<&'static str> {
-        vec!["multi-thread", "mutating-failure-then-retry", "getter", "seed:PanickingDrop", "seed:BigPanickingDrop", "seed:BigDrop", "seed:BigNoDrop"]
+        vec!["multi-thread", "mutating-failure-then-retry", "getter", "seed:PanickingDrop", "seed:BigPanickingDrop", "seed:BigDrop", "seed:BigNoDrop", "seed:ZstDrop", "init-while-unwinding"]
     }
 }
